@@ -241,25 +241,33 @@ where
 
     async fn dump_in_memory(&mut self, blob_size: u64) -> Result<usize> {
         if let State::InMemory(headers) = &self.inner {
-            let headers = {
-                let mut headers = headers.write().expect("rwlock");
-                std::mem::take(&mut *headers).headers
-            };
-            if headers.len() == 0 {
-                return Ok(0);
-            }
-            debug!("blob index simple in memory headers {}", headers.len());
             let (meta_buf, bloom_offset) = self.serialize_filters()?;
-            self.bloom_offset = Some(bloom_offset as u64);
+            let data = {
+                let mut headers = headers.write().expect("rwlock");
+                if headers.headers.len() == 0 {
+                    return Ok(0);
+                }
+                std::mem::take(&mut *headers)
+            };
+            debug!("blob index simple in memory headers {}", data.headers.len());
             let findex = FileIndex::from_records(
                 self.name.as_path(),
                 self.iodriver.clone(),
-                &headers,
+                &data.headers,
                 meta_buf,
                 self.params.recreate_file,
                 blob_size,
             )
-            .await?;
+            .await;
+            let findex = match findex {
+                Ok(findex) => findex,
+                Err(e) => {
+                    // Headers are the only copy of the index until the file is written: keep them
+                    self.inner = State::InMemory(SRwLock::new(data));
+                    return Err(e);
+                }
+            };
+            self.bloom_offset = Some(bloom_offset as u64);
             let size = findex.file_size() as usize;
             self.inner = State::OnDisk(findex);
             return Ok(size);
